@@ -1,8 +1,12 @@
 import CryoCat.Drv.Proto
 import CryoCat.Model.C10
-/-! driver for C10: runs `CryoCat.C10.expand` (the definition `Props/C10` is about) at `Float`.
-request  `{"op":"expand","n":<nat>,"s":[3 float bit patterns],"rows":[[20 bit patterns in Field.all order] …]}`
-response `{"subs":[[20 field bits ++ 9 orientation-matrix bits (row major)] …]}`
+/-! driver for C10: runs `CryoCat.C10.expandSym` / `expand` (the definitions `Props/C10` is about) at `Float`; the
+rounding service is `CryoCat.C10.ratRound` (proved: `ratRound_spec`, `ratRound_ties`) on the EXACT rational value of
+the float — what `decimal.Decimal(float)` sees.
+request  `{"op":"expand","sym":{"str":[code points]} | {"num":<nat>},"s":[3 float bit patterns],"rows":[[20 bit patterns in Field.all order] …]}`
+         (`"n":<nat>` instead of `"sym"` is accepted as `{"num":n}`)
+response `{"kind":"cyclic"|"dihedral"|"raises"|"unbound","n":<nat>,"subs":[[20 field bits ++ 9 orientation-matrix bits (row major)] …] | null}`
+request  `{"op":"round","xs":[bits …]}` → `{"r":[ints]}` (Decimal ROUND_HALF_UP of the exact values)
 request  `{"op":"asis","n":<nat>}` → `{"runs":bool,"len":nat|null}` (model of the code before repair 837c2ef) -/
 namespace CryoCat.Drv.C10
 open Lean CryoCat CryoCat.C10
@@ -14,7 +18,27 @@ def trigDeg (x : Float) : Ang Float :=
   let r := x * (3.141592653589793 / 180.0)
   ⟨Float.cos r, Float.sin r⟩
 
-def svc : Svc Float := { trig := trigDeg, floor := Float.floor, half := 0.5 }
+/-- exact rational value of a finite binary64 (0 for NaN / infinities) -/
+def ratOfFloat (x : Float) : Rat :=
+  let b := x.toBits.toNat
+  let neg := b / 2^63 == 1
+  let e := (b / 2^52) % 2048
+  let m := b % 2^52
+  let mag : Rat :=
+    if e == 2047 then 0
+    else
+      let mant : Nat := if e == 0 then m else 2^52 + m
+      let ex : Nat := if e == 0 then 1 else e
+      if ex ≥ 1075 then ((mant * 2^(ex - 1075) : Nat) : Rat) else mkRat (mant : Int) (2^(1075 - ex))
+  if neg then -mag else mag
+
+/-- `Decimal(v).to_integral_value(ROUND_HALF_UP)` as an integer -/
+def roundInt (v : Float) : Int := (ratRound (ratOfFloat v)).num
+
+/-- `float(Decimal(v).to_integral_value(ROUND_HALF_UP))`; a non-finite value is handed back unchanged (the library raises there) -/
+def roundF (v : Float) : Float := if v.isFinite then Float.ofInt (roundInt v) else v
+
+def svc : Svc Float := { trig := trigDeg, round := roundF }
 
 def parseNums (a : Array Json) : Option (List Nat) := a.toList.mapM (fun c => (c.getNat?).toOption)
 
@@ -26,19 +50,44 @@ def parseRows (a : Array Json) : Option (List (List Nat)) :=
 def subJson (u : SubU Float) : Json :=
   Json.arr ((u.p.toList ++ u.orient.toList).map (fun x => (bitsOfFloat x : Json))).toArray
 
+def parseSymArg (j : Json) : Option Sym :=
+  match j.getObjVal? "sym" with
+  | .ok o =>
+    match getArr? o "str" >>= parseNums, getNat? o "num" with
+    | some cps, _ => some (.str (cps.map Char.ofNat))
+    | none, some n => some (.num n)
+    | none, none => none
+  | .error _ => (getNat? j "n").map Sym.num
+
+def kindJson : SymKind → List (String × Json)
+  | .cyclic n => [("kind", "cyclic"), ("n", (n : Json))]
+  | .dihedral n => [("kind", "dihedral"), ("n", (n : Json))]
+  | .raises => [("kind", "raises"), ("n", Json.null)]
+  | .unbound => [("kind", "unbound"), ("n", Json.null)]
+
 def handle (j : Json) : Json :=
-  match getStr? j "op", getNat? j "n" with
-  | some "asis", some n =>
-    Json.mkObj [("runs", Json.bool (asisRuns n)),
-                ("len", match asisPhi n with | some l => (l.length : Json) | none => Json.null)]
-  | some "expand", some n =>
-    match getArr? j "s" >>= parseNums, getArr? j "rows" >>= parseRows with
-    | some [sx, sy, sz], some rows =>
+  match getStr? j "op" with
+  | some "asis" =>
+    match getNat? j "n" with
+    | some n =>
+      Json.mkObj [("runs", Json.bool (asisRuns n)),
+                  ("len", match asisPhi n with | some l => (l.length : Json) | none => Json.null)]
+    | none => err "bad-args"
+  | some "round" =>
+    match getArr? j "xs" >>= parseNums with
+    | some xs => Json.mkObj [("r", Json.arr ((xs.map (fun b => (roundInt (floatOfBits b) : Json))).toArray))]
+    | none => err "bad-args"
+  | some "expand" =>
+    match parseSymArg j, getArr? j "s" >>= parseNums, getArr? j "rows" >>= parseRows with
+    | some sym, some [sx, sy, sz], some rows =>
       if rows.any (fun r => r.length != 20) then err "bad-args" else
       let s : V3 Float := ⟨floatOfBits sx, floatOfBits sy, floatOfBits sz⟩
       let l : List (Particle Float) := rows.map (fun r => Particle.ofList 0.0 (r.map floatOfBits))
-      Json.mkObj [("subs", Json.arr ((expand svc n s l).map subJson).toArray)]
-    | _, _ => err "bad-args"
-  | _, _ => err "bad-op"
+      let subs : Json := match expandSym svc sym s l with
+        | some us => Json.arr (us.map subJson).toArray
+        | none => Json.null
+      Json.mkObj (kindJson (parseSym sym) ++ [("subs", subs)])
+    | _, _, _ => err "bad-args"
+  | _ => err "bad-op"
 
 end CryoCat.Drv.C10
